@@ -378,8 +378,8 @@ func (s *ClientSession) doMsg(stream *Stream) error {
 	case base.RtmpTypeIdVideo:
 		s.onReadRtmpAvMsg(stream.toAvMsg())
 	default:
+		// a message type we do not handle (e.g. amf3 command, shared object, aggregate): ignore it, as the server session does
 		Log.Errorf("[%s] read unknown message. typeid=%d, %s", s.UniqueKey(), stream.header.MsgTypeId, stream.toDebugString())
-		panic(0)
 	}
 	return nil
 }
